@@ -88,10 +88,11 @@ def check_auth_unit(cls, urls_expr, variant):
     u = Unit(
         P, "Authenticator.check_auth_event",
         Contract("Authenticator.check_auth_event", {"self": V.ObjT(cls), "auth_event": EVENT, "challenge": V.Str},
-                 requires=[("tags-have-two-items", SHAPE)],
-                 ensures=[("accepted-only-if-fresh-signed-answer", sub(AUTH_OK))],
-                 # a correct answer is never refused
-                 raises={"AuthenticationError": sub("not (%s)" % AUTH_OK)}),
+                 ensures=[("accepted-only-if-fresh-signed-answer", sub(AUTH_OK)),
+                          ("clock-monotone", "ghost('clock') >= old(ghost('clock'))")],
+                 # a correct answer is never refused; a tag with fewer items than read makes the check fail with IndexError
+                 raises={"AuthenticationError": sub("not (%s)" % AUTH_OK), "IndexError": "not (%s)" % SHAPE},
+                 modifies=["ghost.clock"]),
         loops={"auth_event.tags": LoopSpec("tags", index="_k", invariants=[(n, sub(e)) for n, e in INV])},
         props=["C15"], setup=clock0,
         canaries=[("never-accepts", "False")],
@@ -121,4 +122,109 @@ REG.unit(Unit(
              ensures=[("allowed-iff-roles-intersect", "result == (%s)" % CAN)],
              returns=V.Bool),
     props=["C14"], setup=clock0, canaries=[("always-allowed", "result")],
+))
+
+
+# ---------------------------------------------------------------------------------------------
+# C15  authenticate: a token is returned only after check_auth_event accepted the event built from the payload
+# ---------------------------------------------------------------------------------------------
+def event_from_json(sx, jv, st):
+    """aionostr Event(**payload) (from the installed source): TypeError for unexpected keys / non-str content;
+    otherwise fields are taken from the payload as they are (no type coercion except int(kind))"""
+    j = B.J()
+    ev = sx.fresh(EVENT, "event", st)
+    for f in ("id", "pubkey", "content", "sig"):
+        item = j["get"](jv.term, z3.StringVal(f))
+        st.assume(z3.Implies(z3.And(j["has"](jv.term, z3.StringVal(f)), j["kind"](item) == B.JSTR), EVENT.get(ev.term, f) == j["str"](item)))
+    for f in ("created_at", "kind"):
+        item = j["get"](jv.term, z3.StringVal(f))
+        st.assume(z3.Implies(z3.And(j["has"](jv.term, z3.StringVal(f)), j["kind"](item) == B.JINT), EVENT.get(ev.term, f) == j["int"](item)))
+    return ev
+
+
+from pyvc import builtins as B  # noqa: E402
+import ast as _ast  # noqa: E402
+
+
+def _star_call(sx, node, st):
+    # Event(**json)
+    if isinstance(node.func, _ast.Name) and node.func.id == "Event" and not node.args and len(node.keywords) == 1 and node.keywords[0].arg is None:
+        outs = []
+        for r in sx.ev(node.keywords[0].value, st):
+            if r.exc is not None:
+                outs.append(r)
+                continue
+            s = r.st
+            jv = r.val
+            if not (isinstance(jv, Val) and isinstance(jv.ty, V._Json)):
+                raise Unsupported("Event(**x) with x not a JSON value", node)
+            s2 = s.fork()
+            outs.append(R(s2, None, Exc("TypeError")))
+            ev = event_from_json(sx, jv, s)
+            s.ghost["constructed_event"] = ev
+            outs.append(R(s, ev))
+        return outs
+    return None
+
+
+REG.__dict__.setdefault('star_call_hooks', []).append(_star_call)
+REG.classes["AuthStorage"] = {}
+
+
+@REG.method("AuthStorage", "get_auth_roles", frame=[])
+def _get_auth_roles(sx, args, kwargs, st, node):
+    return [R(st, sx.fresh(ROLES, "roles", st)), R(st.fork(), None, Exc("EngineError", exact=False))]
+
+
+REG.classes["AuthenticatorUrlsList"]["storage"] = V.ObjT("AuthStorage")
+CE = "ghost('constructed_event')"
+REG.unit(Unit(
+    P, "Authenticator.authenticate",
+    Contract("Authenticator.authenticate", {"self": V.ObjT("AuthenticatorUrlsList"), "auth_event_json": V.Json, "challenge": V.Str},
+             ensures=[
+                 # "within ten minutes of now" for a clock value read during the call
+                 ("token-only-after-accepted-answer",
+                  AUTH_OK.replace("ghost('clock') - auth_event.created_at < 600", "old(ghost('clock')) - auth_event.created_at < 600")
+                  .replace("auth_event", CE).replace("URLS_OF_SELF", "self.valid_urls")),
+                 ("token-names-the-signer", "result['pubkey'] == %s.pubkey" % CE),
+             ],
+             raises={"AuthenticationError": True, "TypeError": True, "IndexError": True, "EngineError+": True}),
+    props=["C15"],
+    setup=lambda sx, st, params: (clock0(sx, st, params), st.ghost.__setitem__("constructed_event", sx.fresh(EVENT, "no_event", st))),
+    canaries=[("never-returns", "False")],
+)).ghost_const = ()
+
+
+# ---------------------------------------------------------------------------------------------
+# C15  get_challenge: 128 fresh random bits per call (unpredictability itself is the contract of `secrets`)
+# ---------------------------------------------------------------------------------------------
+class SecretsModule:
+    def __pyvc_getattr__(self, sx, attr, st, node):
+        if attr == "token_hex":
+            def th(sx2, a, k, s, n):
+                """secrets.token_hex(n) (ASSUMED): 2n lowercase hex characters carrying 8n unpredictable bits, independent of all earlier values"""
+                nbytes = a[0].term if a else z3.IntVal(32)
+                r = sx2.fresh(V.Str, "token_hex", s)
+                s.assume(z3.Length(r.term) == 2 * nbytes)
+                s.ghost["random_bits"] = Val(V.Int, 8 * nbytes)
+                s.ghost["random_value"] = r
+                return [R(s, r)]
+            return [R(st, Func(th, "secrets.token_hex"))]
+        raise Unsupported("secrets.%s" % attr, node)
+
+
+REG.globals["secrets"] = Conc(SecretsModule())
+
+
+def _setup_challenge(sx, st, params):
+    st.ghost["random_bits"] = V.mk_int(0)
+    st.ghost["random_value"] = V.mk_str("")
+
+
+REG.unit(Unit(
+    P, "Authenticator.get_challenge",
+    Contract("Authenticator.get_challenge", {"self": V.ObjT("AuthenticatorUrlsList"), "remote_addr": V.Str},
+             ensures=[("challenge-is-128-fresh-random-bits", "ghost('random_bits') >= 128 and result == ghost('random_value')")],
+             returns=V.Str),
+    props=["C15"], setup=_setup_challenge, canaries=[("constant-challenge", "result == ''")],
 ))
